@@ -74,6 +74,14 @@ for step in hist:
                 parsed[pv + ':roundtrip'] = (back == o and type(back) is type(o))
         except Exception as ex:
             parsed[pv] = 'ERR:' + type(ex).__name__
+    # a registered (non x-) object type is a legal reference target in strict mode, under exactly the versions it is registered for
+    refs = {}
+    if kind == 'object' and not name.startswith('x-'):
+        for pv in ('2.0', '2.1'):
+            m = stix2.v21 if pv == '2.1' else stix2.v20
+            try:
+                m.Relationship(source_ref=name + '--' + U, target_ref='identity--' + U, relationship_type='related-to'); refs[pv] = 'ok'
+            except Exception as ex: refs[pv] = 'ERR:' + type(ex).__name__
     reg = registry.STIX2_OBJ_MAPS[ver][CAT[kind]].get(name)
     usable = None
     if step.get('probe_ext'):
@@ -86,7 +94,7 @@ for step in hist:
                 try:
                     if k0(**kw) is not None: usable = True; break
                 except Exception as ex: usable = 'ERR:' + type(ex).__name__
-    out.append({'step': step, 'result': res, 'delta': delta, 'lost': lost, 'parsed': parsed, 'usable': usable,
+    out.append({'step': step, 'result': res, 'delta': delta, 'lost': lost, 'parsed': parsed, 'usable': usable, 'refs': refs,
                 'registered_is_new': (reg is classes.get((step['kind'], name, ver))) if res == 'ok' else None})
 print(json.dumps(out))
 '''
@@ -108,6 +116,8 @@ def run(chk):
     for f in K.KINDS:
         c = K.register_contract(f); chk.prove(c); chk.canary(c)
     c = KC.validate_type_contract(); chk.prove(c); chk.canary(c)
+    from contracts import parsing as KPI
+    c = KPI.init_prefix_contract(); chk.prove(c)          # the extensions scan: every registered toplevel-property-extension entry counts, whatever its position
     for ob in purity_obligations(SRC_ROOT, ['stix2/registry.py::class_for_type'], allow=('STIX2_OBJ_MAPS',)) + purity_obligations(SRC_ROOT, ['stix2/properties.py::_validate_type', 'stix2/registration.py::_validate_props',
                                             'stix2/registration.py::_validate_ref_props', 'stix2/registration.py::_register_object', 'stix2/registration.py::_register_observable',
                                             'stix2/registration.py::_register_marking', 'stix2/registration.py::_register_extension']):
@@ -130,6 +140,9 @@ def run(chk):
         core = [s for s in steps if not s.get('invalid')]
         pairs = list(itertools.product(core, repeat=2))
         hs += pairs if chk.tier == 'thorough' else [p for i, p in enumerate(pairs) if (i + chk.seed) % 3 == 0]
+        # a plain (non x-) custom type name, per version and in both: reference targets follow the registration
+        pl = lambda ver: {'kind': 'object', 'name': 'vf-plain-type', 'ver': ver}
+        hs += [(pl('2.0'),), (pl('2.1'),), (pl('2.0'), pl('2.1')), (pl('2.1'), pl('2.0')), (pl('2.0'), {'kind': 'object', 'name': 'x-vf-a', 'ver': '2.1'})]
         # cross-version name rules: a name legal in one version only, validated first for the version that allows it
         for k in ('object', 'observable'):
             hs.append(({'kind': k, 'name': '7x-foo', 'ver': '2.0'}, {'kind': k, 'name': '7x-foo', 'ver': '2.1', 'invalid': True}))
@@ -181,6 +194,10 @@ def run(chk):
             if [tuple(d) for d in st['delta']] != [key]: return ('exact#registry gains exactly the registered name', f'{names}: step {s} changed {st["delta"]}, expected exactly {key}', {})
             if st['registered_is_new'] is False: return ('exact#name maps to the registered class', f'{names}: {key} does not map to the class just registered', {})
             registered.add(key)
+            for pv, r in (st.get('refs') or {}).items():
+                should = (pv, 'objects', s['name']) in registered
+                if (r == 'ok') != should:
+                    return ('scope#reference target follows the registration', f'{names}: after {s}, a strict {pv} relationship referring to {s["name"]} is {"accepted" if r == "ok" else "refused (" + r + ")"}; registered for {pv}: {should}', {})
             if s['kind'] in ('object', 'observable'):
                 other = '2.0' if s['ver'] == '2.1' else '2.1'
                 p = st['parsed']
